@@ -3,6 +3,7 @@ package main
 // C12 - OpenID tokens go only to the right client and name the right user.
 
 import (
+	"bytes"
 	"crypto/sha256"
 	"encoding/base64"
 	"encoding/json"
@@ -373,6 +374,26 @@ func (x *c12Ctx) run(p c12Point) (violated bool, key, what, class string) {
 	if ur.Code == 200 {
 		return true, "C12|userinfo-accepts-id-token|idpOpenIDCUserinfoHandler", string(ur.Body), ""
 	}
+	// "and nothing else does": whatever the status, a response to something that is
+	// not an access token names no user (ID token, authorization code, session cookie)
+	freshCode, _ := x.authorize(a)
+	others := map[string]string{"id-token": tr.IDToken, "authorization-code": freshCode, "session-cookie": x.w.vfCookie(a.User, AuthTypePassword).Value}
+	for kind, tok := range others {
+		if tok == "" {
+			continue
+		}
+		for _, via := range []string{"header", "form"} {
+			var r *vfResp
+			if via == "header" {
+				r = x.w.Do(vfReq{Method: "GET", Path: idpOpenIDCUserinfoPath, Header: map[string]string{"Authorization": "Bearer " + tok}}.Build())
+			} else {
+				r = x.w.Do(vfReq{Method: "POST", Path: idpOpenIDCUserinfoPath, Form: url.Values{"access_token": {tok}}}.Build())
+			}
+			if r.Code == 200 || bytes.Contains(r.Body, []byte(`"sub"`)) || bytes.Contains(r.Body, []byte(a.User+"@")) || bytes.Contains(r.Body, []byte(`"`+a.User+`"`)) {
+				return true, "C12|userinfo-discloses-to-non-access-token|idpOpenIDCUserinfoHandler|" + kind, fmt.Sprintf("userinfo given a %s via %s: status %d body %.200q", kind, via, r.Code, r.Body), ""
+			}
+		}
+	}
 	return false, "", "", fmt.Sprintf("released|client=%s|challenge=%s|cred=%s|dontcare=%v", a.Client, a.Challenge, t.CredLoc, dontcare)
 }
 
@@ -420,7 +441,7 @@ func init() {
 	vfRegister(&vfeng.Check{
 		ID:    "C12",
 		Level: "model_checking",
-		Rule:  "exhaustive product on the real authorization, token and userinfo handlers: authorization (client A with secret / B secret-less, user, challenge none/S256/no-method/plain/unknown/empty, nonce none/short/ok, audience none/allowed/foreign) x token request (presenter A/B/C/unknown/empty, secret right/wrong/absent/other client's/URL-escaped/whitespace-only/right+trailing blank/one character short/case-folded, verifier right/wrong/absent/challenge itself, redirect same/other-allowed/foreign/empty, code fresh/299s/300s/301s/bit-flipped/foreign key/session cookie/access token/ID token, credentials in header/form/both disagreeing, POST/GET); oracle: released => mayRelease(model); canonical flows must succeed; released ID token verified against the keys served by the JWKS route; userinfo returns the same user",
+		Rule:  "exhaustive product on the real authorization, token and userinfo handlers: authorization (client A with secret / B secret-less, user, challenge none/S256/no-method/plain/unknown/empty, nonce none/short/ok, audience none/allowed/foreign) x token request (presenter A/B/C/unknown/empty, secret right/wrong/absent/other client's/URL-escaped/whitespace-only/right+trailing blank/one character short/case-folded, verifier right/wrong/absent/challenge itself, redirect same/other-allowed/foreign/empty, code fresh/299s/300s/301s/bit-flipped/foreign key/session cookie/access token/ID token, credentials in header/form/both disagreeing, POST/GET); oracle: released => mayRelease(model); canonical flows must succeed; released ID token verified against the keys served by the JWKS route; userinfo returns the same user; an ID token, an authorization code or a session cookie presented to userinfo (header and form) yields no user data whatever the status",
 		Assumptions: []string{"a code presented exactly 300 s after issue is a boundary (not judged)", "a URL-escaped secret in the form (where no decoding is specified) is not judged"},
 		Shards: func(tier string) int { return 16 },
 		Run: func(c *vfeng.Ctx) {
